@@ -13,6 +13,7 @@ import (
 
 	"github.com/celestiaorg/rsmt2d"
 
+	"github.com/celestiaorg/celestia-node/internal/verifhook"
 	"github.com/celestiaorg/celestia-node/libs/utils"
 	"github.com/celestiaorg/celestia-node/share"
 	"github.com/celestiaorg/celestia-node/share/eds"
@@ -146,11 +147,13 @@ func (s *Store) put(
 		// release the ref link to the accessor
 		utils.CloseAndLog(log, "recent accessor", acc)
 	}
+	verifhook.Point("store.put:cached")
 
 	tNow := time.Now()
 	lock := s.stripLock.byHashAndHeight(datahash, height)
 	lock.lock()
 	defer lock.unlock()
+	verifhook.Point("store.put:locked")
 
 	var exists bool
 	if writeQ4 {
@@ -181,6 +184,7 @@ func (s *Store) createODSQ4File(
 	pathQ4 := s.hashToPath(roots.Hash(), q4FileExt)
 
 	err := file.CreateODSQ4(pathODS, pathQ4, roots, square)
+	verifhook.Point("store.put:files-written")
 	if err != nil && !errors.Is(err, os.ErrExist) {
 		// ensure we don't have partial writes if any operation fails
 		removeErr := s.removeODSQ4(height, roots.Hash())
@@ -199,7 +203,9 @@ func (s *Store) createODSQ4File(
 	}
 
 	// create hard link with height as name
+	verifhook.Point("store.put:before-link")
 	err = s.linkHeight(roots.Hash(), height)
+	verifhook.Point("store.put:after-link")
 	// if both file and link exist, we consider it as success
 	if errors.Is(err, os.ErrExist) {
 		return true, nil
@@ -231,6 +237,7 @@ func (s *Store) validateAndRecoverODSQ4(
 	if err != nil {
 		return fmt.Errorf("removing corrupted ODSQ4 file: %w", err)
 	}
+	verifhook.Point("store.recover:removed")
 	err = file.CreateODSQ4(pathODS, pathQ4, roots, square)
 	if err != nil {
 		return fmt.Errorf("recreating ODSQ4 file: %w", err)
@@ -245,6 +252,7 @@ func (s *Store) createODSFile(
 ) (bool, error) {
 	pathODS := s.hashToPath(roots.Hash(), odsFileExt)
 	err := file.CreateODS(pathODS, roots, square)
+	verifhook.Point("store.put:files-written")
 	if err != nil && !errors.Is(err, os.ErrExist) {
 		// ensure we don't have partial writes if any operation fails
 		removeErr := s.removeODS(height, roots.Hash())
@@ -264,7 +272,9 @@ func (s *Store) createODSFile(
 	}
 
 	// create hard link with height as name
+	verifhook.Point("store.put:before-link")
 	err = s.linkHeight(roots.Hash(), height)
+	verifhook.Point("store.put:after-link")
 	// if both file and link exist, we consider it as success
 	if errors.Is(err, os.ErrExist) {
 		return true, nil
@@ -296,6 +306,7 @@ func (s *Store) validateAndRecoverODS(
 	if err != nil {
 		return fmt.Errorf("removing corrupted ODS file: %w", err)
 	}
+	verifhook.Point("store.recover:removed")
 	err = file.CreateODS(pathODS, roots, square)
 	if err != nil {
 		return fmt.Errorf("recreating ODS file: %w", err)
@@ -485,11 +496,13 @@ func (s *Store) removeODS(height uint64, datahash share.DataHash) error {
 	if err := s.cache.Remove(height); err != nil {
 		return fmt.Errorf("removing from cache: %w", err)
 	}
+	verifhook.Point("store.remove:cache-dropped")
 
 	pathLink := s.heightToPath(height, odsFileExt)
 	if err := remove(pathLink); err != nil {
 		return fmt.Errorf("removing hardlink: %w", err)
 	}
+	verifhook.Point("store.remove:link-removed")
 
 	// if datahash is empty, we don't need to remove the ODS file, only the hardlink
 	if datahash.IsEmptyEDS() {
@@ -500,6 +513,7 @@ func (s *Store) removeODS(height uint64, datahash share.DataHash) error {
 	if err := remove(pathODS); err != nil {
 		return fmt.Errorf("removing ODS file: %w", err)
 	}
+	verifhook.Point("store.remove:ods-removed")
 	return nil
 }
 
@@ -528,12 +542,14 @@ func (s *Store) removeQ4(height uint64, datahash share.DataHash) error {
 	if err := s.cache.Remove(height); err != nil {
 		return fmt.Errorf("removing from cache: %w", err)
 	}
+	verifhook.Point("store.removeQ4:cache-dropped")
 
 	// remove Q4 file
 	pathQ4File := s.hashToPath(datahash, q4FileExt)
 	if err := remove(pathQ4File); err != nil {
 		return fmt.Errorf("removing Q4 file: %w", err)
 	}
+	verifhook.Point("store.removeQ4:q4-removed")
 	return nil
 }
 
